@@ -317,6 +317,7 @@ type expect struct {
 	hasWant bool
 	mustErr bool
 	note    string
+	suffix  string // refinement of the key by the generator's input class ("" for the general stream)
 }
 
 func wantBytes(key string, x []byte) expect { return expect{key: key, want: x, hasWant: true} }
@@ -644,6 +645,55 @@ type pipeCase struct {
 	Index int    `json:"index"`
 }
 
+// checkPipeline encodes x through the stages with the harness's encoders, decodes the result
+// with the implementation under a conforming Filter/DecodeParms shape (digested description
+// and freshly written dictionary) and demands the original bytes back. keySuffix refines the
+// oracle key for a generator that targets one class of inputs.
+func checkPipeline(c *hx.Ctx, r *hx.Rng, stages []stage, x []byte, class, origin, keySuffix string) (f filt, p parms, data []byte, flIn [][]byte, e expect) {
+	nst := len(stages)
+	data, flIn, mids := buildChainMids(r, stages, x)
+	f, p, shape := shapes(r, stages)
+	var kinds []string
+	key := "C05/roundtrip-chain"
+	for _, s := range stages {
+		k := s.Kind
+		if s.Kind == "fl" {
+			switch {
+			case s.Pred == 2:
+				k = "fl+tiff"
+			case s.Pred >= 10:
+				k = "fl+png"
+			}
+		}
+		kinds = append(kinds, k)
+	}
+	if nst == 1 {
+		key = map[string]string{"fl": "C05/flate-roundtrip", "fl+tiff": "C05/tiff-roundtrip", "fl+png": "C05/png-roundtrip",
+			"hex": "C05/hex-roundtrip", "a85": "C05/a85-roundtrip"}[kinds[0]]
+	}
+	e = wantBytes(key+keySuffix, x)
+	e.suffix = keySuffix
+	e.note = fmt.Sprintf("%s stages=%s content=%s", origin, strings.Join(kinds, ","), class)
+	_, ok := run(c, "chain", f, p, data, flIn, e)
+	pipelineDict(c, r.Fork(0xD1), stages, f, p, data, flIn, e)
+	pipelineWrites(c, stages, flIn, mids)
+	c.Count("pipeline:" + strings.Join(kinds, ">"))
+	c.Count("shape:" + shape)
+	c.Count("content:" + class)
+	switch {
+	case len(x) == 0:
+		c.Count("len:0")
+	case len(x) <= 64:
+		c.Count("len:1-64")
+	case len(x) <= 4096:
+		c.Count("len:65-4096")
+	default:
+		c.Count("len:4097-65536")
+	}
+	c.Case(fmt.Sprintf("%s|%s|%x", f.wire(), p.wire(), data), ok && len(x) > 0)
+	return f, p, data, flIn, e
+}
+
 // RunPipeline generates random pipeline number idx of the seed's stream and checks it.
 func RunPipeline(c *hx.Ctx, idx int) {
 	r := c.Rng.Fork(uint64(idx))
@@ -695,45 +745,7 @@ func RunPipeline(c *hx.Ctx, idx int) {
 		}
 	}
 	x, class := content(r, n, period)
-	data, flIn, mids := buildChainMids(r, stages, x)
-	f, p, shape := shapes(r, stages)
-	var kinds []string
-	key := "C05/roundtrip-chain"
-	for _, s := range stages {
-		k := s.Kind
-		if s.Kind == "fl" {
-			switch {
-			case s.Pred == 2:
-				k = "fl+tiff"
-			case s.Pred >= 10:
-				k = "fl+png"
-			}
-		}
-		kinds = append(kinds, k)
-	}
-	if nst == 1 {
-		key = map[string]string{"fl": "C05/flate-roundtrip", "fl+tiff": "C05/tiff-roundtrip", "fl+png": "C05/png-roundtrip",
-			"hex": "C05/hex-roundtrip", "a85": "C05/a85-roundtrip"}[kinds[0]]
-	}
-	e := wantBytes(key, x)
-	e.note = fmt.Sprintf("seed=%d index=%d stages=%s content=%s", c.Seed, idx, strings.Join(kinds, ","), class)
-	_, ok := run(c, "chain", f, p, data, flIn, e)
-	pipelineDict(c, r.Fork(0xD1), stages, f, p, data, flIn, e)
-	pipelineWrites(c, stages, flIn, mids)
-	c.Count("pipeline:" + strings.Join(kinds, ">"))
-	c.Count("shape:" + shape)
-	c.Count("content:" + class)
-	switch {
-	case len(x) == 0:
-		c.Count("len:0")
-	case len(x) <= 64:
-		c.Count("len:1-64")
-	case len(x) <= 4096:
-		c.Count("len:65-4096")
-	default:
-		c.Count("len:4097-65536")
-	}
-	c.Case(fmt.Sprintf("%s|%s|%x", f.wire(), p.wire(), data), ok && len(x) > 0)
+	f, p, data, flIn, e := checkPipeline(c, r, stages, x, class, fmt.Sprintf("seed=%d index=%d", c.Seed, idx), "")
 
 	// the outermost filter is an ASCII filter: bytes after its EOD marker do not belong to
 	// the data (must not change the result); the same data without the marker is tolerated
@@ -1111,7 +1123,7 @@ func specEncoders(c *hx.Ctx) {
 func init() { hx.Register("C05", Run, Replay) }
 
 func Run(c *hx.Ctx) {
-	c.Rep.Rule = "exhaustive: every byte string of length <= 3 over {00,01,7F,80,FF,z,~,>} through ASCIIHex/ASCII85 (canonical and white-space/case styled) and, tiled into rows, through Flate with Predictor {1,2,10..15} x Colors 1..4 x Columns 1..8 (quick tier: full for small geometries, every 23rd otherwise); all per-row PNG filter-type triples over a geometry grid; every string of length <= 4 (thorough 5/6) over alphabets of encoded characters fed raw to the ASCII decoders. random: pipelines of 1..3 stages of {Flate (no parms, Predictor 1, TIFF, PNG with independent per-row types), ASCIIHex, ASCII85} with full or abbreviated names, lengths 0..64 KiB, random/zero/FF/periodic/ramp/sparse content, Columns 1..700, Colors 1..4, DecodeParms as dict, array, null or absent, encoded by the harness's own encoders (from the PDF/PNG/TIFF specifications) and compress/zlib at five levels. undecodable classes built by damaging conforming encodings in a way the specification forbids. dictionary level (c05.sd / c05.sess): every pipeline and every malformed variant again through a freshly written stream dictionary (other keys, shuffled key order, numbers as Int or Real), every parameter key x every kind of value (all object types, integers and Reals n +- 1/16, 1/2 around the values of interest), arbitrary object trees under Filter/DecodeParms, histories of 2..8 Decode() calls on 1..4 streams, and /CCITTFaxDecode dictionaries (K, Columns, Rows, BlackIs1 as Int/Real/other objects or absent) on Group-4 images written by the harness (T.6: white or a vertical stripe) with x/image/ccitt's own results for a grid of argument combinations. non-trivial = decoded without error to a non-empty string; distinct by (Filter, DecodeParms, data)."
+	c.Rep.Rule = "exhaustive: every byte string of length <= 3 over {00,01,7F,80,FF,z,~,>} through ASCIIHex/ASCII85 (canonical and white-space/case styled) and, tiled into rows, through Flate with Predictor {1,2,10..15} x Colors 1..4 x Columns 1..8 (quick tier: full for small geometries, every 23rd otherwise); all per-row PNG filter-type triples over a geometry grid; every string of length <= 4 (thorough 5/6) over alphabets of encoded characters fed raw to the ASCII decoders. random: pipelines of 1..3 stages of {Flate (no parms, Predictor 1, TIFF, PNG with independent per-row types), ASCIIHex, ASCII85} with full or abbreviated names, lengths 0..64 KiB, random/zero/FF/periodic/ramp/sparse content, Columns 1..700, Colors 1..4, DecodeParms as dict, array, null or absent, encoded by the harness's own encoders (from the PDF/PNG/TIFF specifications) and compress/zlib at five levels. expansion: the named contents (all-zero, all-0xFF, one row repeated) at 16 KiB and 64 KiB under no predictor / Predictor 1 / TIFF / PNG None / Up / mixed, then random plans over a ladder of lengths around the powers of two up to 64 KiB x compressible contents (constant, short period, repeated row, long runs, zeros before/after a random part, ramps, PDF-like text) x zlib levels x shapes (Flate alone, behind or before an ASCII filter, Flate over Flate, a predictor stage over a Flate stage), so that Flate stages expanding by every factor from 1 to ~1000 occur in every run. undecodable classes built by damaging conforming encodings in a way the specification forbids. dictionary level (c05.sd / c05.sess): every pipeline and every malformed variant again through a freshly written stream dictionary (other keys, shuffled key order, numbers as Int or Real), every parameter key x every kind of value (all object types, integers and Reals n +- 1/16, 1/2 around the values of interest), arbitrary object trees under Filter/DecodeParms, histories of 2..8 Decode() calls on 1..4 streams, and /CCITTFaxDecode dictionaries (K, Columns, Rows, BlackIs1 as Int/Real/other objects or absent) on Group-4 images written by the harness (T.6: white or a vertical stripe) with x/image/ccitt's own results for a grid of argument combinations. non-trivial = decoded without error to a non-empty string; distinct by (Filter, DecodeParms, data)."
 	exhaustiveSmall(c)
 	rawAlphabets(c)
 	tagTriples(c)
@@ -1122,6 +1134,7 @@ func Run(c *hx.Ctx) {
 	for i := 0; i < n; i++ {
 		RunPipeline(c, i)
 	}
+	expansion(c)
 	c.Rep.Exhaustive = false
 }
 
